@@ -21,6 +21,11 @@ Ops
 * `upd k <body>`         … with `OrderBookEvent::Update(OrderBook::new(..))`
 * `re`                   queue `MarketStreamEvent::Reconnecting`
 * `run` / `runc`         `OrderBookL2Manager { stream: queued, books: map.clone() }.run()`; empties the queue; prints every cell
+* `runr`                 `runc` with a second reader task that holds its own clones of every cell's `Arc` and
+                         polls `try_read()` on all of them whenever the manager waits for the next event; prints
+                         `rdlocked n` (how often a book was found write-locked between two events) first. The map
+                         is documented as "clone the map for viewing the up to date OrderBooks elsewhere": a
+                         reader is never shut out between events, so model and spec print `rdlocked 0`
 * `depth c d`            `snapshot(d)` of the book in cell `c`
 
 Observation keys carry the cell number (`b0`, `a0`, …) so that the spec can print a subset.
@@ -205,11 +210,12 @@ def model : Drv MSt where
           ["ev " ++ fmtBookLine b.sequence b.timeEngine b.bids b.asks])
       | _, _ => (s, ["bad-op"])
     | [r] =>
-      if r != "run" && r != "runc" then (s, ["bad-op"]) else
+      if r != "run" && r != "runc" && r != "runr" then (s, ["bad-op"]) else
       match s.map with
       | some m =>
         let heap := managerRun m s.heap s.queue
         ({ s with heap := heap, queue := [] },
+          (if r == "runr" then ["rdlocked 0"] else []) ++
           (heap.zipIdx.map fun (b, c) => obsFull (toString c) b).flatten)
       | none => (s, ["bad-op"])
     | ["depth", c, d] =>
@@ -327,11 +333,12 @@ def spec : Drv SSt where
       | some k, some b => ({ s with queue := s.queue ++ [.item k (.update b)] }, [])
       | _, _ => (s, ["bad-op"])
     | [r] =>
-      if r != "run" && r != "runc" then (s, ["bad-op"]) else
+      if r != "run" && r != "runc" && r != "runr" then (s, ["bad-op"]) else
       match s.map with
       | some (_, log) =>
         let cells := specRunBy (AssocLog.find log) s.cells s.queue
         ({ s with cells := cells, queue := [] },
+          (if r == "runr" then ["rdlocked 0"] else []) ++
           (cells.zipIdx.map fun (c, i) => obsSpec (toString i) c).flatten)
       | none => (s, ["bad-op"])
     | ["depth", c, d] =>
